@@ -19,6 +19,7 @@ for n in $seeds; do
   d=$V/seeded/$n
   [ -f $d/patch.diff ] || continue
   pid=$(python3 -c "import json,sys;print(json.load(open('$d/meta.json'))['property'])")
+  [ -n "$PROP" ] && pid=$PROP
   tier=${TIER:-quick}
   if ! git -C $MX/repo apply $d/patch.diff 2>/dev/null; then echo "$n $pid rc=NA patch does not apply"; continue; fi
   (cd $MX/verif && VERIF_REPO=$MX/repo timeout 3600 ./bin/check $pid --tier $tier > $MX/out-$n.txt 2>&1); rc=$?
